@@ -61,4 +61,8 @@ CLAIMS = {
   technique="labelled-payload monitor at the ROUTER and peer boundaries (identity prefix vs announced id, frame-list equality over all 30 empty/non-empty shapes, claimant-only delivery, mandatory/non-mandatory unknown ids, reconnect with same id)",
   level_text="Held on every scenario explored: prefixes equal announced identities (no placeholder, no foreign id, stable for anonymous peers), payloads unchanged both ways, addressed messages reach only claimants, unknown ids give HostUnreachable / silent drop, a new connection with the same id is routed to. Exploration.",
   level_note="In AUTO_DELIMITER=0 mode frame lists are compared after dropping a leading routing-id frame and leading empty frames (rzmq's manual-mode delimiter conventions are not pinned down by the property); colliding identities: only the non-claimant rule is judged."),
+ "C14": dict(
+  technique="per-call boundary monitor (error variant + elapsed) against a peer that never reads, bound on accepted-but-undelivered messages, and the C01 conservation oracle once the peer drains; recv-side timeout monitor on empty queues",
+  level_text="Held (apart from the recorded DEALER-egress findings) on every (pair, transport, HWM, timeout) explored: SNDTIMEO/RCVTIMEO 0 fail at once with would-block, T>0 fail within [T, T+2 s] with timeout/would-block, -1 does not fail while observed and completes once the peer reads, the accepted count stays under the HWM bound, and nothing refused is delivered later. Exploration with generous time bounds.",
+  level_note="A timing regression smaller than the bounds (15 ms early, 2 s late) passes; the -1 observation lasts 3 s in quick and 35 s in thorough (one code path substitutes 30 s)."),
 }
